@@ -39,15 +39,15 @@ var ctx = context.Background()
 // ---- in-memory stream --------------------------------------------------------------
 
 type memStream struct {
-	ctx   context.Context
-	reqs  []*pb.SessionRequest
-	i     int
-	sent  []*pb.SessionResponse
+	ctx           context.Context
+	reqs          []*pb.SessionRequest
+	i             int
+	sent          []*pb.SessionResponse
 	sentAfterRecv []int // number of Recv calls completed when each Send happened
-	mu    sync.Mutex
+	mu            sync.Mutex
 	// interactive mode: the driver feeds requests one at a time
-	feed   chan *pb.SessionRequest
-	out    chan *pb.SessionResponse
+	feed chan *pb.SessionRequest
+	out  chan *pb.SessionResponse
 }
 
 func (s *memStream) SetHeader(metadata.MD) error  { return nil }
@@ -222,11 +222,11 @@ const (
 )
 
 type runner struct {
-	svc   *service
-	pool  *pool
-	state state
-	part  string
-	n     int
+	svc            *service
+	pool           *pool
+	state          state
+	part           string
+	n              int
 	pendingPayload []byte
 }
 
